@@ -1,6 +1,7 @@
 """C06 check configuration (see lib/props.py for the field meanings)."""
 
 PROP = {
+    "thorough_scale": 4,
     "parts": [
         {"name": "table", "pkg": "internal/filtering",
          "files": ["filtering/c06_model_test.go", "filtering/c06_rewrites_test.go"],
